@@ -37,7 +37,8 @@ def layer_dags(draw, max_layers=5, min_layers=0, hooks='any', faults=None, nie=F
             hk = sorted(hk, key=HOOKS.index)
         L = {'name': names[i], 'kind': draw(st.sampled_from(kinds)), 'bases': bases, 'hooks': hk}
         layers.append(L)
-    if faults:
+    if faults or nie:
+        faults = faults or {}
         # faults are placed after the structure is known so that they only name effective hooks
         from . import model
         spec = {'layers': layers, 'mp': 'x'}
